@@ -394,11 +394,17 @@ def _canaries(ctx, events):
     """ Shows that the binding is real: corrupted copies of accepted events must be rejected by TLC. """
     writes = [ev for ev in events if ev["op"] == "write"]
     dirs = [ev for ev in events if ev["op"] == "dir"]
-    good = next(ev for ev in writes if ev["c"]["fault"]["phase"] == "none" and ev["c"]["nrec"] >= 1 and ev["c"]["nmod"] >= 1
-                and ev["ret"]["exc"] == "" and ev["disk"] == "new" and ev["trace"])
-    bad = next(ev for ev in writes if ev["c"]["fault"]["phase"] == "convert" and ev["c"]["fault"]["kind"] == "TypeError"
-               and ev["disk"] == "old")
-    refused = next(ev for ev in dirs if ev["ret"]["exc"] and ev["d"]["state"] == "dir" and "file" in ev["d"]["contents"])
+    good = next((ev for ev in writes if ev["c"]["fault"]["phase"] == "none" and ev["c"]["nrec"] >= 1 and ev["c"]["nmod"] >= 1
+                and ev["ret"]["exc"] == "" and ev["disk"] == "new" and ev["trace"]), None)
+    bad = next((ev for ev in writes if ev["c"]["fault"]["phase"] == "convert" and ev["c"]["fault"]["kind"] == "TypeError"
+               and ev["disk"] == "old" and ev["ret"]["exc"]), None)
+    refused = next((ev for ev in dirs if ev["ret"]["exc"] and ev["d"]["state"] == "dir" and "file" in ev["d"]["contents"]),
+                   None)
+    if good is None or bad is None or refused is None:
+        if ctx.failures:     # the tree under test is broken and reported as such; nothing accepted to corrupt
+            ctx.notes["binding_canaries_rejected"] = "skipped: no accepted event of the needed kind"
+            return
+        raise MachineryError("no accepted event to build the binding canaries from")
     open_ev = {"e": "Open", "i": 0, "j": 0, "ok": True}
     canaries = [
         (dict(good, disk="truncated"), "success_implies_new"),
